@@ -5,7 +5,7 @@ CONSTANTS
   MaxSig = 2
   Cap = 2
   Vals <- OneVal
-  Quorums <- TwoQuorums
+  Quorums <- OneQuorum
   PrevDec = "code"
   Weaken <- NoWeaken
 INVARIANT TypeOK
